@@ -11,6 +11,10 @@ PROP = {
             "renderings containing the truncation marker `...` outside string literals and the multi-line expanded member view of a top-level class/enum are skipped and counted (skipped:*)",
     "min_nontrivial": {"quick": 30000, "thorough": 500000},
     "max_secs": {"quick": 600, "thorough": 1500},
+    # 17 per 10k renderings are truncated on the pinned tree (measured); renderings that are truncated
+    # are outside the property ("within the renderer's size limits") and skipped, so a regression
+    # that truncates more must not hide behind the skip
+    "max_clause_per_10k": {"skipped:truncated": ("rendered", 25, "C17:truncated-share-exceeds-calibrated-bound")},
     "require_clauses": ["a:structural-roundtrip", "b:rerender-equal", "rendered", "skipped:truncated", "family:string-literal", "family:array-of-union", "family:record"],
     "assumptions": COMMON_ASSUME + [
         "'same type' = equal canonical forms of the two LuaType values (union members as a set, record fields by key, annotation literals and inferred literals identified)",
